@@ -6,6 +6,7 @@
 import sys, os, json, time, argparse, importlib, hashlib, re, traceback, subprocess
 sys.path.insert(0, os.path.dirname(os.path.abspath(__file__)))
 import vlib
+from props.common import run_oracle
 from vlib import VERIF, COQ, OUT
 import numpy as np
 
@@ -279,8 +280,11 @@ def main():
         for cfg in mod.oracle_cases('thorough' if widen else tier, rng):
             n_or += 1
             k = mod.strat_key(cfg); dist[k] = dist.get(k, 0) + 1
+            if getattr(mod, 'GRAD_MODES', False):
+                # gradient-free statement: a pseudo-random half of the cases runs under torch.no_grad()
+                cfg = dict(cfg, _nograd=int(hashlib.sha256(json.dumps(cfg, sort_keys=True, default=str).encode()).digest()[0] & 1))
             try:
-                fail = mod.oracle_run(cfg)
+                fail = run_oracle(mod, cfg)
             except Exception as e:
                 fail = dict(error='%s: %s' % (type(e).__name__, e), trace=traceback.format_exc()[-1500:])
             if fail:
